@@ -207,8 +207,8 @@ impl Property for C01 {
     }
     fn phases(&self, tier: Tier) -> Vec<Phase> {
         match tier {
-            Tier::Quick => vec![Phase::new("core", 1_500, Profile::Release)],
-            Tier::Thorough => vec![Phase::new("core", 60_000, Profile::Release), Phase::new("core-checked", 10_000, Profile::Checked)],
+            Tier::Quick => vec![Phase::new("core", 12_000, Profile::Release)],
+            Tier::Thorough => vec![Phase::new("core", 400_000, Profile::Release), Phase::new("core-checked", 60_000, Profile::Checked)],
         }
     }
     fn required_features(&self, _tier: Tier) -> Vec<String> {
